@@ -29,7 +29,7 @@ def _before(obj, kind):
     _log(kind, obj)
     E = obj._database_.entities
     b = CFG['before']
-    if b == 'read':
+    if b == 'read' and kind != 'before_delete':           # (an object marked for deletion refuses to be read)
         obj.n if hasattr(type(obj), 'n') else obj.m
         for a in type(obj)._attrs_:
             if a.is_collection: len(getattr(obj, a.name))
@@ -47,10 +47,18 @@ def _before(obj, kind):
 
 def _after(obj, kind):
     _log(kind, obj)
-    if CFG['after'] == 'read':
+    if CFG['after'] == 'read' and kind != 'after_delete':
         obj.k
         for a in type(obj)._attrs_:
             if a.is_collection: len(getattr(obj, a.name))
+    elif CFG['after'] == 'modothers' and kind != 'after_delete':
+        # the hook of an object saved earlier changes the objects of the other entity - some of them were written by the
+        # same flush and still wait for their own after_* hook
+        E = obj._database_.entities
+        other = E['A'] if type(obj).__name__ == 'B' else E['B']
+        for pk in (1, 2, 3):
+            o = other.get(id=pk)
+            if o is not None and o.k != 9: o.k = 9
 
 def define(db):
     from pony.orm import PrimaryKey, Optional, Set
@@ -165,7 +173,18 @@ def worker(args):
         ev = events(x)
         sub.count('hook_calls', len([e for e in ev if '_' in e[0]])); sub.count('statements', len([e for e in ev if '_' not in e[0]]))
         if any(o[0] != 'ok' for o in x.obs):
-            sub.count('flush_failed'); return            # a failing operation / flush rolls back: hooks cannot be matched
+            sub.count('flush_failed')
+            # a failing operation / flush rolls back: hooks cannot be matched. But hooks that only read, edit a plain attribute
+            # or create an unrelated object must not MAKE a flush fail that succeeds without hooks
+            if all(o[0] == 'ok' for o in x.obs[:-1]) and before in ('read', 'modself', 'modother', 'create') and after in ('nothing', 'read'):
+                CFG.update(before='nothing', after='nothing', counter=0)
+                plain = env.run(hist, fixture, track_dumps=True)
+                if all(o[0] == 'ok' for o in plain.obs):
+                    sub.count('flush_fails_only_with_hooks')
+                    sub.violation('before=%s after=%s|%s|fails-only-with-hooks:%s' % (before, after, hist[-1][0], x.obs[-1][1]),
+                                  dict(before=before, after=after, fixture=fixture, history=hist),
+                                  '%r ends with %s when the hooks are installed and succeeds without them' % (hist, x.obs[-1][1]))
+            return
         bad = problems(x, hist)
         if not bad: return
         pre = (sx.kinds(hist), tuple(bad))
@@ -186,7 +205,7 @@ def worker(args):
     return dict(sub=sub.dump(), states=ex.states, transitions=ex.transitions, executions=ex.executions + sub.counters.get('flush_histories', 0))
 
 def run(ctx):
-    cfgs = [(b, 'nothing') for b in BEFORE] + [('nothing', 'read'), ('modself', 'read')]
+    cfgs = [(b, 'nothing') for b in BEFORE] + [('nothing', 'read'), ('modself', 'read'), ('nothing', 'modothers'), ('read', 'modothers')]
     items = [(b, a, ctx.tier, ctx.seed, f) for (b, a) in cfgs for f in ('populated', 'empty')]
     results = ctx.pmap(worker, items)
     agg = dict(states=0, transitions=0, executions=0)
@@ -197,7 +216,7 @@ def run(ctx):
     ctx.guard('flushing histories judged', c.get('flush_histories', 0), 1000)
     ctx.guard('hook calls observed', c.get('hook_calls', 0), 1000)
     ctx.guard('write statements observed', c.get('statements', 0), 1000)
-    ctx.cov['bounds'] = '8 hook configurations x histories of one (thorough: two) arbitrary modifications + flush/commit/obj.flush() from both fixtures'
+    ctx.cov['bounds'] = '10 hook configurations x histories of one (thorough: two) arbitrary modifications + flush/commit/obj.flush() from both fixtures'
     ctx.assume('statements are attributed to objects by table and primary-key parameter of the real SQL text; SQLite only')
     return dict(states=agg['states'], transitions=agg['transitions'], traces_validated_against_impl=agg['executions'])
 
